@@ -1,4 +1,4 @@
-\* exhaustive design check, bridge store, code before the F1 repair: TLC must find the stale-frontier counterexample (C01 C04 C07 C08 C14)
+\* generated by mkstorecfg.py - code before the F1 repair: TLC must find the stale-frontier counterexample
 CONSTANTS
   Kind = "bridge"
   Fixed = FALSE
@@ -7,7 +7,7 @@ CONSTANTS
   MaxEvents = 2
   MaxLeaves = 5
   MaxOps = 5
-  Faults = {"stmt", "commit", "ctx"}
+  Faults = {"stmt", "ctx", "commit"}
   AllowGap = TRUE
   AllowRestart = TRUE
   AllowReorg = TRUE
